@@ -143,6 +143,8 @@ def cases(tier, seed):
             steps.append({"glyphs": glyphs, "info": {"capHeight": 700, "xHeight": 500}, "separate": True, "plain": (k + j) % 4 != 3})
         spec = {"name": kind, "include": {"kind": "all"} if k % 2 else _include(rng2, sorted(names)),
                 "kwargs": dict(OPTS[kind][(k // 3) % len(OPTS[kind])])}
+        if k % 5 == 4:
+            spec["include"] = {"kind": "list", "names": []}      # an EMPTY include list selects no glyph at all
         out.append({"cid": f"c14-{seed}-p{k}", "lib": rng2.choice(["ufoLib2", "defcon"]), "filter": spec, "steps": steps,
                     "interp": False, "again": False})
     return out
